@@ -71,7 +71,19 @@ EXPLANATION = ("Lean theorems over the reals about the generated utils formulas 
                "differential check against utils.* and real Snowing runs; triple point coincidence, p_ice <= p_liq "
                "below it and liquid monotonicity below 235 K are a monitored TEST on a grid, not a theorem")
 PARALLEL = True
-LEVEL_TEXT = None
+LEVEL_TEXT = (
+    "Lean 4 theorems (exact real arithmetic) about Lean definitions GENERATED from utils.py by harness/translate.py on "
+    "every run (vapour_pressure_liquid, vapour_pressure_solid, vapour_flux) and about a hand-written model of the top "
+    "boundary of the 1D loops; the generated text is rebuilt and the theorems re-checked on every run, the window "
+    "model is tied to /repo by a differential check against real paired 1D VISF/shelf runs (bit-for-bit on the top "
+    "node, step by step). Proved in full: ice curve strictly increasing on (0,400] K; flux zero at equilibrium, "
+    "positive iff p_vap > p_vac, strictly increasing in p_vap, closed form and strict monotonicity in kappa on (0,1]; "
+    "q_e is -N_w dHe exactly for VISF strictly inside the window and 0 otherwise; outside the window the VISF step of "
+    "the top node equals the shelf step; inside it q_e <= 0 iff p_vap >= p_vac. Partial: liquid curve strictly "
+    "increasing on [235,332] K only. NOT proved, only evaluated on every run (test): coincidence of the two curves at "
+    "the triple point (rel. 1e-6), p_ice <= p_liq on the 0.01 K grid below 273.15 K, liquid curve increasing on "
+    "[123,235) K; whole-run identity of VISF and shelf outside the window is checked on real runs, its induction over "
+    "the full loop is not part of this check.")
 
 
 def regenerate():
